@@ -7,8 +7,8 @@ import (
 	"fmt"
 	"io"
 	"log/slog"
-	"math/big"
 	"os"
+	"strconv"
 	"strings"
 	"unicode"
 
@@ -57,15 +57,13 @@ func classCase() lib.Case {
 		Kind: "class", Nontrivial: true, OracleOK: ok, OracleMsg: msg, Size: 1}
 }
 
-// the two polynomial hashes of Corr/RunC15.v: hash_str
+// the polynomial hash (mod 2^64) of Corr/RunC15.v: hash_str
 func hashStr(s string) string {
-	const p1, p2 = 1000000007, 998244353
-	h1, h2 := uint64(7), uint64(11)
+	h := uint64(1469598103934665603)
 	for _, r := range s {
-		h1 = (h1*257 + uint64(r) + 1) % p1
-		h2 = (h2*1000003 + uint64(r) + 1) % p2
+		h = h*1000003 + uint64(r) + 1
 	}
-	return new(big.Int).Add(new(big.Int).Mul(new(big.Int).SetUint64(h1), big.NewInt(p2)), new(big.Int).SetUint64(h2)).String()
+	return strconv.FormatUint(h, 10)
 }
 
 func coqTexts(xs []string) string {
@@ -148,8 +146,25 @@ func finish(d desc, coqHead string, o cfg.Obs, marker *cfg.Marker, extra ...stri
 }
 
 func fileCase(d desc, doc string, marker *cfg.Marker) lib.Case {
-	coq, _, o := cfg.RunFile(doc)
-	return finish(d, "CFile "+cfg.CClasses(doc)+" "+coq, o, marker)
+	coq, conf, o := cfg.RunFile(doc)
+	var w cfg.WireObs
+	if o.Accepted {
+		// the same configuration against a real pool: Migrate, loadTasks/NewTask, one Converge per task
+		w = cfg.RunFileWire(conf)
+	}
+	c := finish(d, "CFile "+cfg.CClasses(doc)+" "+coq, o, marker, w.AllSQL...)
+	if c.Coq != "" {
+		var cur []string
+		for _, s := range w.Cursor {
+			cur = append(cur, strings.TrimSpace(strings.TrimSuffix(strings.Join(strings.Fields(s), " "), ";")))
+		}
+		c.Coq += " " + coqTexts(w.AppNames) + " " + coqTexts(cur)
+	}
+	if w.Err != "" {
+		c.OracleOK = false
+		c.OracleMsg = "file path on the wire: " + w.Err
+	}
+	return c
 }
 
 func seedSources(seed string) []shconfig.Source {
@@ -256,7 +271,7 @@ func identifiers(seed string) []string {
 
 func run(c lib.Cfg) error {
 	slog.SetDefault(slog.New(slog.NewTextHandler(io.Discard, nil)))
-	out := lib.NewOut("C15", c.Out, header, "run", 100)
+	out := lib.NewOut("C15", c.Out, header, "run", 120)
 	out.Rule = "the configuration decoded and was either rejected by validation or the planted marker occurs in at least one SQL text"
 	if c.Replay != "" {
 		env, err := cfg.NewDashEnv()
@@ -317,6 +332,14 @@ func run(c lib.Cfg) error {
 		k++
 		return []int{k % 4, safe[k%len(safe)], rng.Intn(cfg.FirstIdxMarker)}
 	}
+	// consistent renames: two markers in the quick tier (one hostile, one accepted)
+	pickRename := func() []int {
+		ms := pick()
+		if !c.Thorough() && len(ms) > 2 {
+			ms = ms[:2]
+		}
+		return ms
+	}
 	npos := 0
 	for _, seed := range cfg.SeedOrder {
 		descs = append(descs, desc{Stream: "seed", Seed: seed, Marker: -1})
@@ -333,7 +356,7 @@ func run(c lib.Cfg) error {
 			idxPos = false
 		}
 		for _, id := range identifiers(seed) {
-			for _, m := range pick() {
+			for _, m := range pickRename() {
 				descs = append(descs, desc{Stream: "file-rename", Seed: seed, Path: id, Marker: m})
 			}
 		}
@@ -351,7 +374,7 @@ func run(c lib.Cfg) error {
 				idxPos = false
 			}
 			for _, id := range identifiers(seed) {
-				for _, m := range pick() {
+				for _, m := range pickRename() {
 					descs = append(descs, desc{Stream: "dash-rename", Seed: seed, Path: id, Marker: m, Ig: ig})
 				}
 			}
@@ -371,6 +394,7 @@ func run(c lib.Cfg) error {
 	out.Notes["string_positions"] = npos
 	out.Notes["seeds"] = cfg.SeedOrder
 	out.Notes["markers"] = len(cfg.Markers)
+	out.Notes["file_path_wire"] = "every accepted file configuration is also run against harness/fakepg through a pgxpool: shovel.Schema, config.Migrate, loadTasks/NewTask, one Task.Converge per task on a scripted source; every statement on the wire is searched for the markers, `set application_name` is compared with the model, statements on shovel.task_updates must be the constants of shovel/task.go"
 	out.Notes["dashboard_path"] = "the real web.Handler.SaveIntegration against harness/fakepg through a pgxpool: CheckUserInput, insert, Manager.Restart, loadTasks, NewTask (`set application_name` observed on the wire), config.Integrations; Delete/Accept/COPY/notify of the loaded integration through the Go-level fake wpg.Conn"
 	return out.Flush()
 }
